@@ -389,4 +389,17 @@ def evaluate (div : Nat → Rat) (q : Rat) (V : Mat Rat) (total : Nat) (rows : O
     | .error e => .error e
     | .ok tgt => run q V tgt fuel s0 0 []
 
+/-! ## decidable hypotheses of the partial-correctness theorems (evaluated by the driver on every case) -/
+
+/-- well-formed vote matrix: rectangular and non-negative -/
+def votesOk (V : Mat Rat) : Bool := shapeOk V V.length (nCols V) && V.all (fun r => r.all (fun v => decide (0 ≤ v)))
+
+/-- decidable form of the loop invariant: the seat matrix has the shape of the vote matrix, the multipliers are
+    positive and every cell lies between its signposts under them -/
+def stateOk (q : Rat) (V : Mat Rat) (s : State) : Bool :=
+  shapeOk s.x V.length (nCols V)
+  && allN (fun i => decide (0 < s.dc.getD i 0)) V.length
+  && allN (fun j => decide (0 < s.pc.getD j 0)) (nCols V)
+  && allN (fun i => allN (fun j => decide (isRounding q (quot V s i j) (mget s.x i j))) (nCols V)) V.length
+
 end VL.Biprop
